@@ -21,7 +21,7 @@ CHECKS = {
  "C07": dict(level="exploration", design="5/C07", technique="TLA+ transcription of Python's binding rules (ArgBinding) enumerated by TLC; one implementation test of filter_args per state, oracle cross-checked against CPython's real binding",
              text="Exhaustive over all signatures with <= 4 (quick) / <= 5 (thorough) parameters and all call shapes Python accepts, for plain functions and bound methods, with ignore lists.",
              note="Trusted base: TLC as enumerator; CPython as second anchor of the oracle (disagreement = machinery failure)."),
- "C11": dict(level="model_checking", design="5/C11", technique="TLA+/PlusCal CacheFS model of 2-3 concurrent processes checked by TLC; TLC-simulated and pre-emption-bounded schedules replayed on real processes/threads at file-system-call granularity (LD_PRELOAD turn-based scheduler)",
+ "C11": dict(level="model_checking", design="5/C11", technique="TLA+/PlusCal CacheFS model of 2-3 concurrent processes checked by TLC; TLC-simulated and pre-emption-bounded schedules replayed on real processes/threads at file-system-call granularity (LD_PRELOAD turn-based scheduler); final-state and step conformance of the real directory against the model",
              text="All interleavings of the model for 2-3 participants are model-checked; on the real code every schedule with <= 2 pre-emptions between two participants (strided in quick), TLC-simulated schedules and random ones are enforced call by call and every participant's result checked.",
              note="Trusted base: TLC; interleaving granularity = libc file-system calls under the cache root; 2-3 participants."),
 
@@ -38,7 +38,7 @@ CHECKS = {
              text="Exhaustive over canonical stores with <= 3 items x limit combinations (thorough; sampled in quick, plus 4-item stores): the evicted set must be one of the valid answers, survivors load, evicted entries recompute.",
              note="Trusted base: TLC; tie-tolerant reading of LRU order; age boundaries avoided by half a step."),
 
- "C03": dict(level="exploration", design="5/C03", technique="TLA+ decision table (Persist) and object-graph enumerator (ObjGraph) run by TLC; one round-trip test per state (all targets, renamed to every extension), identity-preserving isomorphism check, payload size classes",
+ "C03": dict(level="exploration", design="5/C03", technique="TLA+ decision table (Persist) and object-graph enumerator (ObjGraph) run by TLC; one round-trip test per state (all targets, renamed to every extension), identity-preserving isomorphism check, payload size classes, dumps embedded at offsets; TLA+ Sniffing (compressor registry over the history of a process) model-checked and its histories replayed",
              text="Every configuration of the dump lattice is checked against the decision table and round-tripped through every target and name; ~7k enumerated object graphs with sharing/cycles are round-tripped; size classes around buffer boundaries.",
              note="Fidelity is decided by comparison with the original object; the specification decides writer/reader selection and enumerates. lz4 not installed."),
  "C13": dict(level="model_checking", design="5/C13", technique="TLA+ reference stream (ZlibStream): TLC generates every operation sequence of bounded length with its dictated responses; replayed on BinaryZlibFile/BinaryGzipFile with io.BytesIO as second oracle; write side decoded by zlib/gzip",
